@@ -54,6 +54,19 @@ def reachable_models(root):
     return out
 
 
+def assert_tree(m):
+    """the recursion tree of instance_for_arguments with each node's own assertions (no sharing
+    collapse: a shared sub-model is checked at every visit, as the code does)"""
+    if isinstance(m, CompoundPrior):
+        kids = [m._left, m._right]
+    elif isinstance(m, ModifiedPrior):
+        kids = [m.prior]
+    else:
+        kids = [v for k, v in m.__dict__.items() if not k.startswith("_")]
+    return {"a": [X.asrt_node(a) for a in getattr(m, "_assertions", []) or []],
+            "c": [assert_tree(k) for k in kids if isinstance(k, AbstractPriorModel)]}
+
+
 def add_assertions(rng, prog, n_max=6):
     """append assert statements to a generated program (before the root statement); operands are
     priors / expressions that occur in the model (an assertion on a foreign prior is a user error)"""
@@ -212,6 +225,7 @@ def one_case(ctx, prog, vecs=None, label="gen"):
     if any(a.get("a") == "unknown" for a in wire_asserts):
         ctx.hit("unknown-assertion-object")
         return
+    atree = assert_tree(model)
     prog_asserts = [s for s in prog if s["op"] == "assert" and id(H[s["h"]]) in reach]
     priors = list(model.priors_ordered_by_id)
     lims = [[f2h(p.lower_limit), f2h(p.upper_limit)] for p in priors]
@@ -219,7 +233,7 @@ def one_case(ctx, prog, vecs=None, label="gen"):
     todo = vecs if vecs is not None else vectors(rng, model, prog, H)
     for kind, v in todo:
         for ignore in (False, True):
-            req = {"p": "C03", "comp": comp, "lims": lims, "asserts": wire_asserts, "v": [f2h(x) for x in v], "ignore": ignore}
+            req = {"p": "C03", "comp": comp, "lims": lims, "asserts": wire_asserts, "atree": atree, "v": [f2h(x) for x in v], "ignore": ignore}
             ans = ctx.lean.ask(req)
             if "driver_error" in ans:
                 ctx.disagree("driver", {"program": prog, "vector": v}, None, ans)
